@@ -70,6 +70,18 @@ def check(ctx):
     ctx.check(len(ps) == 1 and match(ps[0].ret, Agg("Bitstring::Bitstring", Call("Iterator::collect", Call("Iterator::map", Call("IntoIterator::into_iter", Param(1), nargs=1), conv, nargs=2), nargs=1))) and len(ps[0].calls()) == 3,
               "R18.1", "Bitstring::from_iter-collects-in-order", short(ps[0].ret), f.at())
 
+    # the bitstring constructors are collection generators too: every bit comes from the element generator, num_bits of them
+    f = ctx.fn("ec_linear::genome::bitstring::Bitstring::random")
+    ps = return_paths(ctx.paths(f))
+    ctx.check(len(ps) == 1 and len(ctx.paths(f)) == 1 and match(ps[0].ret, Call("Distribution::sample", Through(Call("ConvertToCollectionGenerator::into_collection_generator", Agg("StandardUniform::StandardUniform"), Param(1), nargs=2)), lambda a: rng_passthrough(a, 2), nargs=2)),
+              "R18.1", "Bitstring::random=collection-generator(StandardUniform,num_bits).sample(rng)", short(ps[0].ret, 5) if ps else "-", f.at(),
+              bad_detail="Bitstring::random(num_bits, rng) must be the collection generator of num_bits elements over the uniform bit generator, sampled with rng (every element drawn from the element generator); extracted " + "; ".join(short(q.ret, 8) for q in ps))
+    f = ctx.fn("ec_linear::genome::bitstring::Bitstring::random_with_probability")
+    ps = return_paths(ctx.paths(f))
+    ctx.check(len(ps) == 1 and len(ctx.paths(f)) == 1 and match(ps[0].ret, Call("Distribution::sample", Through(Call("ConvertToCollectionGenerator::into_collection_generator", Call("BoolGenerator::new", Param(2), nargs=1), Param(1), nargs=2)), lambda a: rng_passthrough(a, 3), nargs=2)),
+              "R18.1", "Bitstring::random_with_probability=collection-generator(BoolGenerator(p),num_bits).sample(rng)", short(ps[0].ret, 5) if ps else "-", f.at(),
+              bad_detail="Bitstring::random_with_probability must be the collection generator of num_bits elements over BoolGenerator::new(probability); extracted " + "; ".join(short(q.ret, 8) for q in ps))
+
     # ---- R18.2 -----------------------------------------------------------------------
     impls = [im for im in F.impls if im.get("trait") in (D + "conversion::IntoDistribution", D + "conversion::ToDistribution")]
     ctx.floor("R18.2", len(impls), 14, "IntoDistribution/ToDistribution impls")
